@@ -1,0 +1,186 @@
+//! Read-only probe of connection internals for the external verification harness
+//!
+//! Compiled only with the private `__verif` feature. Nothing here mutates state or changes
+//! control flow.
+
+use std::net::SocketAddr;
+
+use super::{Connection, State, timer::Timer};
+use crate::{Duration, Instant, packet::SpaceId};
+
+/// Snapshot of per-space loss-recovery bookkeeping
+#[derive(Debug, Clone, PartialEq, Eq, Default)]
+pub struct SpaceProbe {
+    /// Whether keys for this space are installed
+    pub has_keys: bool,
+    /// Number of sent packets still tracked (neither acked, lost nor abandoned)
+    pub tracked_packets: usize,
+    /// Loss probes owed in this space
+    pub loss_probes: u32,
+    /// Next packet number to be used
+    pub next_packet_number: u64,
+    /// Largest acknowledged packet number
+    pub largest_acked: Option<u64>,
+    /// Probe timeout of this space
+    pub pto: Duration,
+    /// Number of packets recorded as lost and not yet forgotten
+    pub lost_packets: usize,
+}
+
+/// Snapshot of stream-level accounting
+#[derive(Debug, Clone, PartialEq, Eq, Default)]
+pub struct StreamsProbe {
+    /// Connection-level send limit announced by the peer
+    pub max_data: u64,
+    /// Sum of stream offsets sent
+    pub data_sent: u64,
+    /// Bytes written and not yet acknowledged
+    pub unacked_data: u64,
+    /// Locally configured bound on unacknowledged data
+    pub send_window: u64,
+    /// Connection-level receive limit we may advertise
+    pub local_max_data: u64,
+    /// Last MAX_DATA value queued for sending
+    pub sent_max_data: u64,
+    /// Sum of end offsets received on all streams
+    pub data_recvd: u64,
+    /// Configured connection receive window
+    pub receive_window: u64,
+    /// Configured stream receive window
+    pub stream_receive_window: u64,
+    /// Received-but-unread bytes buffered over all streams
+    pub recv_buffered: u64,
+    /// Locally initiated streams opened, per direction (bi, uni)
+    pub next: [u64; 2],
+    /// Peer-granted stream limits, per direction
+    pub max: [u64; 2],
+    /// Stream limits granted to the peer, per direction
+    pub max_remote: [u64; 2],
+    /// Remote streams opened, per direction
+    pub next_remote: [u64; 2],
+    /// Remote stream slots currently allocated, per direction
+    pub allocated_remote_count: [u64; 2],
+    /// Number of send streams that may have unacknowledged data
+    pub send_streams: usize,
+}
+
+/// Read-only snapshot of connection internals
+#[derive(Debug, Clone, PartialEq, Eq)]
+pub struct Probe {
+    /// "handshake", "established", "closed", "draining" or "drained"
+    pub state: &'static str,
+    /// Bytes in flight on the current path
+    pub in_flight_bytes: u64,
+    /// Ack-eliciting packets in flight on the current path
+    pub in_flight_ack_eliciting: u64,
+    /// Bytes in flight on the previous path, if any
+    pub prev_in_flight_bytes: Option<u64>,
+    /// Congestion window of the current path
+    pub cwnd: u64,
+    /// Per packet-number-space bookkeeping (initial, handshake, data)
+    pub spaces: [SpaceProbe; 3],
+    /// Number of consecutive PTOs
+    pub pto_count: u32,
+    /// Armed timers, by name
+    pub timers: Vec<(&'static str, Instant)>,
+    /// Whether the current path is validated
+    pub path_validated: bool,
+    /// Bytes sent on the current path
+    pub path_total_sent: u64,
+    /// Bytes received on the current path
+    pub path_total_recvd: u64,
+    /// Current path remote
+    pub path_remote: SocketAddr,
+    /// Whether a path challenge is outstanding on the current path
+    pub path_challenge: bool,
+    /// Previous path remote, while it is remembered
+    pub prev_path_remote: Option<SocketAddr>,
+    /// Stream accounting
+    pub streams: StreamsProbe,
+    /// Bytes of received datagrams not yet handed to the application
+    pub datagram_recv_buffered: usize,
+    /// Bytes of queued outgoing datagrams
+    pub datagram_outgoing_total: usize,
+    /// Number of queued outgoing datagrams
+    pub datagram_outgoing: usize,
+    /// Highest usable packet space (0..=2)
+    pub highest_space: usize,
+    /// Current key phase
+    pub key_phase: bool,
+    /// Negotiated idle timeout
+    pub idle_timeout: Option<Duration>,
+    /// Sequence number of the remote CID in use
+    pub rem_cid_seq: u64,
+    /// Whether a close packet is still owed
+    pub close_pending: bool,
+    /// MTU upper bound peer allows
+    pub peer_max_udp_payload_size: u64,
+}
+
+impl Connection {
+    /// Read-only snapshot of internals, for the verification harness
+    pub fn verif_probe(&self) -> Probe {
+        let space = |id: SpaceId| {
+            let s = &self.spaces[id];
+            SpaceProbe {
+                has_keys: s.crypto.is_some(),
+                tracked_packets: s.sent_packets.range(..).count(),
+                loss_probes: s.loss_probes,
+                next_packet_number: s.next_packet_number,
+                largest_acked: s.largest_acked_packet,
+                pto: self.pto(id),
+                lost_packets: s.lost_packets.len(),
+            }
+        };
+        const NAMES: [&str; 9] = [
+            "LossDetection",
+            "Idle",
+            "Close",
+            "KeyDiscard",
+            "PathValidation",
+            "KeepAlive",
+            "Pacing",
+            "PushNewCid",
+            "MaxAckDelay",
+        ];
+        Probe {
+            state: match self.state {
+                State::Handshake(_) => "handshake",
+                State::Established => "established",
+                State::Closed(_) => "closed",
+                State::Draining => "draining",
+                State::Drained => "drained",
+            },
+            in_flight_bytes: self.path.in_flight.bytes,
+            in_flight_ack_eliciting: self.path.in_flight.ack_eliciting,
+            prev_in_flight_bytes: self.prev_path.as_ref().map(|(_, p)| p.in_flight.bytes),
+            cwnd: self.path.congestion.window(),
+            spaces: [
+                space(SpaceId::Initial),
+                space(SpaceId::Handshake),
+                space(SpaceId::Data),
+            ],
+            pto_count: self.pto_count,
+            timers: Timer::VALUES
+                .iter()
+                .filter_map(|&t| Some((NAMES[t as usize], self.timers.get(t)?)))
+                .collect(),
+            path_validated: self.path.validated,
+            path_total_sent: self.path.total_sent,
+            path_total_recvd: self.path.total_recvd,
+            path_remote: self.path.remote,
+            path_challenge: self.path.challenge.is_some(),
+            prev_path_remote: self.prev_path.as_ref().map(|(_, p)| p.remote),
+            streams: self.streams.verif_probe(),
+            datagram_recv_buffered: self.datagrams.recv_buffered,
+            datagram_outgoing_total: self.datagrams.outgoing_total,
+            datagram_outgoing: self.datagrams.outgoing.len(),
+            highest_space: self.highest_space as usize,
+            key_phase: self.key_phase,
+            idle_timeout: self.idle_timeout,
+            rem_cid_seq: self.rem_cids.active_seq(),
+            close_pending: self.close,
+            peer_max_udp_payload_size: self.peer_params.max_udp_payload_size.into_inner(),
+        }
+    }
+}
